@@ -3,3 +3,6 @@ def pair():
                 replace=["_mi_deferred_free/c_cx_deferred", "_mi_is_main_thread/c_cx_is_main", "_mi_thread_id/c_cx_thread_id", "_mi_abandoned_reclaim_all/c_cx_reclaim_all", "mi_heap_visit_pages/c_cx_visit",
                          "_mi_heap_delayed_free_all/c_cx_dfall", "_mi_heap_collect_retired/c_cx_retired", "_mi_abandoned_collect/c_cx_abcollect", "_mi_thread_data_collect/c_cx_tdcollect",
                          "_mi_arenas_collect/c_cx_arenas", "mi_stats_merge/c_cx_merge"])
+def page_collect_pair():
+    return dict(name="page_collect", entry="h_page_collect", harness="harness/heap_collect.c", enforce="mi_heap_page_collect", label="P", functions=["mi_heap_page_collect"], timeout=300, unwind=24,
+                replace=["_mi_page_free_collect/c_pc_free_collect", "_mi_segment_collect/c_pc_segment_collect", "_mi_page_free/c_pc_page_free", "_mi_page_abandon/c_pc_page_abandon"])
